@@ -167,6 +167,7 @@ def classify(p, A, prev, cur, roots):
 def run(tier, replay):
     chk = vlib.Check("C14", tier)
     vlib.build_flavor("asan")
+    bslib.bscmd_path()
     binp = vlib.build_harness("bsdriver", "asan", ["bsdriver.cpp"], libs=LIBS)
     sd = vlib.scratch_dir("c14")
     try:
